@@ -514,6 +514,72 @@ def daemon_conf(routes):
     )
 
 
+def run_remove_readd(res):
+    """three reloads of the REAL daemon: a file refused after the neighbor's section was read, a file without the neighbor, a
+    file with the neighbor back and fewer routes.  The neighbor which comes back is told the routes of the last file only -
+    nothing of its earlier life (configured routes since dropped, API routes of the removed neighbor)"""
+    import signal
+    import time
+
+    from vlib import daemon, exa
+
+    idle = daemon_conf([]).split('neighbor 127.0.0.2')[0]  # the process section
+    full = daemon_conf([('10.1.1.0/24', '192.0.2.1', 1), ('10.1.2.0/24', '192.0.2.1', 2)])
+    tail = full[full.index('neighbor 127.0.0.77') :]
+    without = idle + tail
+    back = daemon_conf([('10.1.1.0/24', '192.0.2.1', 1)])
+    broken = full + '\nbogus-section {\n'
+    d = daemon.Daemon(full, files={'script': '#sleep 1.0\npeer * announce route 10.9.9.0/24 next-hop 192.0.2.2 med 9\n#wait never\n'})
+    peer = None
+    cls = 'daemon:remove-and-readd'
+    try:
+        d.start()
+        peer = d.accept()
+        peer.establish(65001, hold=90)
+        d.wait_lines('replies', lambda ls: any(x.startswith('["wait"') for x in ls), timeout=60)
+        peer.drain(quiet=0.8, limit=20)
+        n_failed = d.tail(200000).count('config.reload.failed')
+        d.rewrite_conf(broken)
+        d.signal(signal.SIGUSR1)
+        peer.drain(quiet=1.5, limit=10)
+        if d.tail(200000).count('config.reload.failed') == n_failed:
+            daemon.skipped(res, 'the damaged file was not refused')
+            return
+        d.rewrite_conf(without)
+        d.signal(signal.SIGUSR1)
+        got = peer.drain(quiet=2.0, limit=20)
+        if not any(t in (3, None) for t, _ in got):
+            res.violation('C17/daemon:removed-neighbor-kept-its-session', 'the neighbor was taken out of the file and its session is still up', {'level': 'daemon'}, cls)
+            return
+        peer.close()
+        time.sleep(0.5)
+        d.rewrite_conf(back)
+        d.signal(signal.SIGUSR1)
+        peer = d.accept(timeout=60)
+        peer.establish(65001, hold=90)
+        rx = peer.drain(quiet=1.5, limit=30)
+    except daemon.Inconclusive as e:
+        daemon.skipped(res, str(e))
+        return
+    finally:
+        try:
+            if peer is not None:
+                peer.close()
+        except Exception:  # noqa
+            pass
+        d.stop()
+    try:
+        got = table_of(rx)
+    except rw.RefError as e:
+        res.violation('C17/undecodable-update', str(e), {'level': 'daemon'}, cls)
+        return
+    want = {'10.1.1.0/24': ('192.0.2.1', 1)}
+    if got != want:
+        res.violation('C17/daemon:readded-neighbor-told-routes-of-its-earlier-life', f'the neighbor was removed by one reload and put back by the next with one route; it was told {sorted(got)}', {'level': 'daemon', 'peer': sorted(got.items())}, cls)
+    else:
+        res.ok(cls, ('daemon', 'remove-readd'))
+
+
 def run_daemon(desc):
     """the REAL daemon: the file is rewritten and SIGUSR1 sent to the process (the signal handler and the main loop decide the
     rest); what a scripted peer holds afterwards is the new file's routes plus the routes a real helper announced.  A broken
@@ -525,6 +591,8 @@ def run_daemon(desc):
 
     res = Result()
     r = random.Random(desc['seed'] * 86028121 + desc['part'])
+    if desc['part'] == 1:
+        run_remove_readd(res)
     kinds = ['remove', 'add', 'attr-changed', 'nexthop-changed', 'mixed', 'same']
     for ci in range(desc['cases']):
         kind = kinds[(ci + desc['part'] * 2 + desc['seed']) % len(kinds)]
